@@ -67,6 +67,11 @@ def pipeline_model(ctx, thorough, retire=False):
         ctx.tlc_model("PipelineMC", "mcr.cfg", files={"mcr.cfg": pipe_cfg(dg="MCDgrams2", bufs="b1, b2, b3, b4", retire=1)}, timeout=900)
 
 
+def c04_tpl(gp, tid, v):
+    from props import c04
+    return c04.tpl_msg(gp, tid, v)
+
+
 def make_job(ctx, proto, workers, seed, ndata):
     rng = ctx.rng
     exps = flowjobs.exporters(seed) + [[192, 0, 2, 55]]
@@ -398,6 +403,25 @@ def check(ctx, want="C12"):
         j["poison"] = []
         j["mqfull"] = True
         jobs.append(j)
+    # the collector runs all four protocols in one process, each with its own max-udp-size: another protocol with a SMALLER (and a
+    # larger) size has been at work before datagrams longer than that size arrive for this one
+    if not mirror_only:
+        for main, other, msize, osize in (("ipfix", "netflow9", 9000, 1500), ("netflow9", "ipfix", 9000, 1500), ("ipfix", "sflow", 1500, 9000), ("sflow", "netflow5", 9000, 1500)):
+            j = make_job(ctx, main, 2, ctx.seed * 1000 + 470, 24)
+            j["udpsize"], j["poison"] = msize, []
+            if main in ("ipfix", "netflow9") and msize > 1500:
+                # ... datagrams of 2-6 thousand octets: one long data set of the first template's exporter
+                gp = "ipfix" if main == "ipfix" else "v9"
+                exp0 = [10, 0, 0, 1]
+                j["templates"].append({"exp": exp0, "buf": c04_tpl(gp, 400, 1)})
+                for k, n in enumerate((500, 900, 1400)):
+                    body = [(7 * i + k) % 251 for i in range(4 * n)]
+                    ds = [400 >> 8, 400 & 255] + [((4 + len(body)) >> 8) & 255, (4 + len(body)) & 255] + body
+                    j["data"].append({"exp": exp0, "buf": ([0, 10] + [((16 + len(ds)) >> 8) & 255, (16 + len(ds)) & 255] + [0] * 12 + ds) if main == "ipfix"
+                                      else ([0, 9, 0, n & 255] + [0] * 15 + [k + 1] + ds)})
+            nb = make_job(ctx, other, 1, ctx.seed * 1000 + 471, 6)
+            j["neighbour"] = {"proto": other, "udpsize": osize, "data": nb["templates"] + nb["data"]}
+            jobs.append(j)
     # mirroring enabled (ipfix and sflow have it): the copies taken by the mirror workers, and the mirror queue full
     for proto in ("ipfix", "sflow"):
         for k, mode in enumerate(["on", "full"] * (3 if thorough else 1)):
@@ -410,6 +434,12 @@ def check(ctx, want="C12"):
         j = make_job(ctx, proto, 2, ctx.seed * 1000 + 540, 1064)
         j["templates"], j["mirror"], j["backlog"], j["poison"], j["lazy"] = [], "on", True, [], 2
         jobs.append(j)
+    # dynamic workers with mirroring on: workers that have mirrored datagrams are told to quit while datagrams keep arriving
+    for proto in ("ipfix", "sflow"):
+        for kk, (wn, rn) in enumerate([(3, 2), (4, 3)]):
+            j = make_job(ctx, proto, wn, ctx.seed * 1000 + 560 + kk, 32)
+            j["retire"], j["mirror"] = rn, "on"
+            jobs.append(j)
     # mirroring switched on after the templates were learnt (start-up window, templates from the cache file), exporters as the
     # default wildcard socket reports them (IPv4-mapped, 16 octets) and as an IPv4 socket does (4 octets)
     for k, form in enumerate(["mapped", "plain"]):
